@@ -49,6 +49,7 @@ def strategy(tier):
             "history": gen.histories(max_len=44),
             "reset_at": st.one_of(st.none(), st.integers(0, 20)),
             "extra_resets": st.integers(0, 2),
+            "deferred": st.booleans(),
         }
     )
 
@@ -61,12 +62,17 @@ def check_case(case, ctx):
         obs.make_feature_observer(d, ["is_completed", case["pre_observer"], 0])
     graph = obs.BUILDERS[case["builder"]](instance)
     flags = case["flags"]
+    deferred = bool(case.get("deferred"))
     upd = ResidualGraphUpdater(
         d,
         graph,
+        subscribe=not deferred,
         remove_completed_machine_nodes=flags[0],
         remove_completed_job_nodes=flags[1],
     )
+    if deferred:
+        d.subscribe(upd)  # attached by hand, still before the first dispatch
+        ctx.label("deferred_subscription")
     dur, mach = inst["durations"], inst["machines"]
     used = {x for row in mach for ms in row for x in ms}
     all_used = len(used) == 1 + max(used)
